@@ -772,6 +772,8 @@ def _http_close(eng, st, recv, args, kwargs, line):
 LIBM[('opaque:Http', 'close')] = _http_close
 lib.OPAQUE_ATTR[('HttpResp', 'content')] = lambda eng, st, o: V(BYTES, z3.Function(
     'http_resp_content', z3.IntSort(), z3.StringSort())(o.t))
+LIBM[('opaque:HttpResp', 'read')] = lambda eng, st, recv, args, kwargs, line: iter([(st, V(
+    BYTES, z3.Function('http_resp_content', z3.IntSort(), z3.StringSort())(recv.t)))])   # aiohttp
 lib.OPAQUE_ATTR[('HttpResp', 'status')] = lambda eng, st, o: V(INT, resp_status(o.t))     # aiohttp
 LIBM[('opaque:WS', 'send_binary')] = lambda *a: _ws_send(*a)
 LIBM[('opaque:WS', 'send_bytes')] = lambda *a: _ws_send(*a)       # aiohttp ClientWebSocketResponse
